@@ -10,9 +10,9 @@ TIMEOUT = {'quick': 1500, 'thorough': 14400}
 EXHAUSTIVE = {
     'quick': 'build_spans over every site layout (subset of 0..n) for n<=8 x missed 0..4 x semi x min/max in '
              '{None,1..8}; get_cleavage_sites over every protein of length 0..5 on {K,R,P,D,E,A} x 19 named proteases '
-             '+ 14 user regexes',
+             '+ 18 user regexes (incl. character-class ranges)',
     'thorough': 'build_spans over every site layout for n<=12 x missed 0..4 x semi x min/max in {None,1..12}; '
-                'get_cleavage_sites over every protein of length 0..8 on {K,R,P,D,E,A} x 19 named proteases + 9 user '
+                'get_cleavage_sites over every protein of length 0..8 on {K,R,P,D,E,A} x 19 named proteases + 18 user '
                 'regexes; digest over every protein of length 0..6 x rule sets x missed 0..2 x semi x 4 length windows'}
 RULE = ('post-conditions on get_cleavage_sites (independent site finder: named proteases as residue predicates, user '
         'regexes by anchored match at every position), build_spans (set model; also the calls digest makes), digest / '
@@ -32,13 +32,24 @@ TECHNIQUE = 'runtime monitoring: post-conditions with an independent set model, 
 ALPHA6 = 'KRPDEA'
 ALL20 = 'ACDEFGHIKLMNPQRSTVWY'
 NAMED = [k for k in rd.NAMED]
-USER_ZERO = ['(?<=K)', '(?=D)', '(?<=[KR])(?!P)', '(?=K)|(?<=K)', '(?<=E)|(?<=D)']
-USER_CONSUMING = ['([KR])', 'K', '[DE]', 'KP']
+USER_ZERO = ['(?<=K)', '(?=D)', '(?<=[KR])(?!P)', '(?=K)|(?<=K)', '(?<=E)|(?<=D)', '(?<=[K-R])', '(?=[D-F])']
+USER_CONSUMING = ['([KR])', 'K', '[DE]', 'KP', '([K-R])', '[^A-Q]']
 # one regex whose alternatives mix both styles: every match is read by its own width (zero-width -> its position,
 # consuming -> start + 1)
 USER_MIXED = ['(?=D)|([KR])', '([KR])|(?=D)', '(?<=E)|K', 'K(?=A)|(?=P)', '(?<=[DE])|[FWY]']
 ALL_RULES = NAMED + USER_ZERO + USER_CONSUMING + USER_MIXED
 RETURN_TYPES = ['str', 'annotation', 'span', 'str-span', 'annotation-span']
+
+
+def compiled(rng, pattern: str):
+    """the user regex as a compiled pattern, optionally compiled with flags under which it means the same rule"""
+    import regex
+    r = rng.random()
+    if r < 0.4:
+        return regex.compile(pattern)
+    if r < 0.7:
+        return regex.compile(pattern.lower(), regex.IGNORECASE)
+    return regex.compile(' ' + pattern + "   # the caller's comment", regex.VERBOSE)
 
 
 class State:
@@ -147,6 +158,10 @@ def run_digest(ctx, st, pt, protein, rules, missed=0, semi=False, min_len=None, 
     exp, emu, nonspec, site_list = expected_digest(protein, rules, missed, semi, min_len, max_len, complete)
     st.case = {'nonspecific': nonspec}
     rule_arg = rules[0] if len(rules) == 1 and ctx.rng.random() < 0.5 else list(rules)
+    if rule_obj is None and ctx.rng.random() < 0.08:
+        # user regexes handed over as compiled patterns (in a list), with the flags a caller may have compiled them with:
+        # the same rule as its plain spelling
+        rule_arg = [compiled(ctx.rng, r) if r not in rd.NAMED else r for r in rules]
     if rule_obj is not None:        # the caller's own list (or configuration) object, reused and edited between calls
         rule_arg = rule_obj
     try:
